@@ -36,7 +36,7 @@ func runC12(r *Run) {
 	r.rule("C12.R2", "finalPrice / confirmed round price are assigned only under ExceedsThreshold(accumulated power, total power); the round is sealed only with a non-nil final price", 3)
 	r.rule("C12.R3", "at most once: a sealed worker is rejected before anything is counted; aggregate() returns the memoised price first", 3)
 	r.rule("C12.R4", "round ids: the price is stored only when RoundID equals the expected next id, which is then increased by exactly one; the price family has the four known writers; carry-forward stores RoundID+1", 5)
-	r.rule("C12.R5", "every round closes: EndBlock seals unconditionally, grows the round of every failed TOKEN id, clears the nonces of every sealed FEEDER id, prepares the next round afterwards; force-seal iff validator updates are non-empty", 7)
+	r.rule("C12.R5", "every round closes: EndBlock seals unconditionally, grows the round of every failed TOKEN id, clears the nonces of every sealed FEEDER id, prepares the next round afterwards; force-seal iff validator updates are non-empty; no feeder or round is skipped by an early loop exit; committed params reach the running context", 10)
 	r.rule("C12.R6", "retention: the deleted round is nextRoundID - MaxSizePrices, guarded by a test equivalent to nextRoundID > MaxSizePrices", 2)
 	r.rule("C12.R7", "the median sorts the list before indexing", 1)
 	r.rule("C12.R8", "aggregation arithmetic is side-effect free and complete: the per-source round list can hold MaxDetID ids of every validator; the median does not modify the values it is given; a validator-set update replaces the stored set and total", 4)
@@ -770,6 +770,110 @@ func runC12(r *Run) {
 		})
 		r.check(ok, "C12.R5", "PrepareRound|new-round-without-old-worker", v.pos(v.Decl), "a new round starts without the previous round's worker", "PrepareRoundEndBlock announces a new round without deleting the feeder's previous worker")
 	}
+	// every feeder and every round is looked at in each block: the loops of PrepareRoundEndBlock and SealRound are
+	// not left early (the feeder list is ordered by registration, not by start block)
+	for _, fn := range []string{"AggregatorContext.PrepareRoundEndBlock", "AggregatorContext.SealRound"} {
+		v := w.View("x/oracle/keeper/aggregator", fn)
+		if v == nil {
+			continue
+		}
+		var exits []string
+		nLoops := 0
+		ast.Inspect(v.Decl.Body, func(n ast.Node) bool {
+			rs, isR := n.(*ast.RangeStmt)
+			if !isR || v.innermostLoop(rs) != nil {
+				return true
+			}
+			src := exprString(rs.X)
+			if !(strings.Contains(src, "TokenFeeders") || strings.HasSuffix(src, ".rounds")) {
+				return true
+			}
+			nLoops++
+			ast.Inspect(rs.Body, func(m ast.Node) bool {
+				switch x := m.(type) {
+				case *ast.FuncLit:
+					return false
+				case *ast.BranchStmt:
+					if x.Tok == token.BREAK && x.Label == nil {
+						// a break that belongs to an inner switch/select/loop is not an exit of this loop
+						inner := false
+						for p := v.parent(x); p != nil && p != ast.Node(rs); p = v.parent(p) {
+							switch p.(type) {
+							case *ast.SwitchStmt, *ast.TypeSwitchStmt, *ast.SelectStmt, *ast.ForStmt, *ast.RangeStmt:
+								inner = true
+							}
+						}
+						if !inner {
+							exits = append(exits, "break at "+v.pos(x))
+						}
+					}
+					if x.Tok == token.GOTO || (x.Label != nil && x.Tok == token.BREAK) {
+						exits = append(exits, x.Tok.String()+" at "+v.pos(x))
+					}
+				case *ast.ReturnStmt:
+					exits = append(exits, "return at "+v.pos(x))
+				}
+				return true
+			})
+			return true
+		})
+		r.check(nLoops >= 1 && len(exits) == 0, "C12.R5", "every-item-visited|"+fn, v.pos(v.Decl), "the loop over the feeders / rounds is never left early", fn+" leaves its loop over the feeders/rounds early ("+strings.Join(exits, ", ")+fmt.Sprintf("; %d loops found)", nLoops)+": the feeders behind that point get no round in this block (their reports are refused, round numbers fall out of step)")
+	}
+	// a params update committed by EndBlock switches the running context to the new params in the same block: the
+	// flag that guards agc.SetParams is the result of CommitCache that is raised on the params arm
+	if ev, cv := w.View("x/oracle", "AppModule.EndBlock"), w.View("x/oracle/keeper/cache", "Cache.CommitCache"); ev != nil && cv != nil {
+		// which named result of CommitCache reports the params commit
+		idx := -1
+		if cv.Decl.Type.Results != nil {
+			i := 0
+			for _, fl := range cv.Decl.Type.Results.List {
+				for _, nm := range fl.Names {
+					o := cv.Info.ObjectOf(nm)
+					for _, as := range cv.assignmentsTo(o) {
+						if len(as.Rhs) == 1 && exprString(as.Rhs[0]) == "true" {
+							for _, f := range cv.FactsAt(as, false) {
+								if f.Truth && strings.HasSuffix(exprString(f.Atom), ".params.update") {
+									idx = i
+								}
+							}
+						}
+					}
+					i++
+				}
+			}
+		}
+		ok, why := false, "CommitCache has no named result raised under c.params.update"
+		if idx >= 0 {
+			why = "agc.SetParams is not guarded by that result"
+			for _, sp := range ev.CallsNamed("SetParams") {
+				if recv, _, _, isM := methodCall(sp); !isM || !resolvesToCallV(ev, recv, "GetAggregatorContext") {
+					continue
+				}
+				for _, f := range ev.FactsAt(sp, false) {
+					id, isID := stripParens(f.Atom).(*ast.Ident)
+					if !isID || !f.Truth {
+						continue
+					}
+					o := ev.Info.ObjectOf(id)
+					ast.Inspect(ev.Decl.Body, func(n ast.Node) bool {
+						as, isAs := n.(*ast.AssignStmt)
+						if !isAs || len(as.Rhs) != 1 || len(as.Lhs) <= idx {
+							return true
+						}
+						if c, isC := stripParens(as.Rhs[0]).(*ast.CallExpr); isC && ev.calleeName(c) == "CommitCache" {
+							if lid, isL := as.Lhs[idx].(*ast.Ident); isL && ev.Info.ObjectOf(lid) == o {
+								ok = true
+							} else {
+								why = fmt.Sprintf("the flag guarding agc.SetParams is not result %d of CommitCache (the one raised when params were committed)", idx)
+							}
+						}
+						return true
+					})
+				}
+			}
+		}
+		r.check(ok, "C12.R5", "EndBlock|params-switch-follows-params-commit", ev.pos(ev.Decl), "the running context takes over new params in the block whose EndBlock commits them", "EndBlock: "+why+": after a params update the context keeps preparing rounds with the old feeders and retention (a feeder added by the update gets no rounds; MaxSizePrices lowered is not honoured)")
+	}
 	if v := w.View("x/oracle/keeper/aggregator", "worker.do"); v != nil {
 		var fc, fa types.Object
 		for _, c := range v.CallsNamed("filtrate") {
@@ -933,4 +1037,22 @@ func windowOffset(v *FnView, e ast.Expr) (a ast.Expr, sub, mod string, ok bool) 
 		}
 	}
 	return nil, "", "", false
+}
+
+// assignmentsTo: the assignment statements of the function whose left side names the object.
+func (v *FnView) assignmentsTo(o types.Object) []*ast.AssignStmt {
+	var out []*ast.AssignStmt
+	ast.Inspect(v.Decl.Body, func(n ast.Node) bool {
+		as, ok := n.(*ast.AssignStmt)
+		if !ok {
+			return true
+		}
+		for _, l := range as.Lhs {
+			if id, isID := stripParens(l).(*ast.Ident); isID && v.Info.ObjectOf(id) == o {
+				out = append(out, as)
+			}
+		}
+		return true
+	})
+	return out
 }
